@@ -190,11 +190,13 @@ CT_EXPECT = {
     "text/x-rst; charset=latin1": False, "text/plainx": False, "text/plain\nfoo": False, "text/x-rst\r; variant=a": False,
 }
 LF_EXPECT = {"LICENSE": True, "licenses/MIT.txt": True, "a/b/c": True, "NOTICE": True, "../x": False, "*.txt": False,
-             "/abs": False, "C:\\x": False, "a\\b": False, "a/../b": False, "x*": False}
+             "/abs": False, "C:\\x": False, "a\\b": False, "a/../b": False, "x*": False,
+             "C:/licenses/LICENSE": False, "c:/LICENSE": False, "//server/share/LICENSE": False}
 LAW_POOLS = dict(G.POOLS)
 LAW_POOLS["description_content_type"] = ([k for k, v in CT_EXPECT.items() if v], [k for k, v in CT_EXPECT.items() if not v], [])
 LAW_POOLS["license_files"] = ([["LICENSE", "licenses/MIT.txt"], [], ["a/b/c"], ["NOTICE"]],
-                              [["../x"], ["*.txt"], ["/abs"], ["C:\\x"], ["a\\b"], ["LICENSE", "a/../b"], ["x*"]], [])
+                              [["../x"], ["*.txt"], ["/abs"], ["C:\\x"], ["a\\b"], ["LICENSE", "a/../b"], ["x*"],
+                               ["C:/licenses/LICENSE"], ["LICENSE", "c:/LICENSE"], ["//server/share/LICENSE"]], [])
 LAW_POOLS["dynamic"] = ([d for d in G.POOLS["dynamic"][0]], [d for d in G.POOLS["dynamic"][1] if d != ["İ"]], [])
 
 
